@@ -8,8 +8,14 @@
 //! * Slots are strictly increasing along a chain and sparse (>= 1; slot 0 is reserved for the
 //!   origin point, like `RawCardanoPoint::origin()`).
 //! * Block numbers: in `dense` mode they are consecutive (what Cardano does); in `sparse` mode the
-//!   generator leaves gaps, up to whole empty block ranges (the design asks for it; every witness
-//!   records the mode so that a disagreement that needs gaps can be told apart).
+//!   generator leaves gaps, up to whole empty block ranges (the design asks for it). The gaps are a
+//!   function of the HEIGHT only (`height_numbers`): every fork numbers its h-th block alike, as
+//!   on Cardano where number = height. Fork-dependent gaps were tried first and only produced
+//!   artefacts that cannot happen on a chain with consecutive numbers (a new fork putting a block
+//!   into an already complete block range above the resume point; an import target that is not an
+//!   existing block number, which makes the streamer consume two blocks past the target and lose
+//!   one of them when the second poll reaches the tip). For the same reason import targets are
+//!   always numbers of existing blocks in sparse mode (history.rs).
 //! * A transaction hash lives in at most one block of a chain, but a transaction of an abandoned
 //!   block can be included again in a block of the new fork (what a real mempool does).
 //! * `roll_back` only truncates the current chain; blocks produced afterwards form a new fork. The
@@ -20,6 +26,7 @@ use vcore::rnd;
 
 #[derive(Clone, Debug)]
 pub struct Blk {
+    #[allow(dead_code)]
     pub id: usize,
     pub parent: Option<usize>,
     pub number: u64,
@@ -43,6 +50,8 @@ pub struct ChainProfile {
     /// probability (in 1/100) per block to toggle a "transaction drought" (stretch of blocks without
     /// transactions: gives empty legacy block ranges even with consecutive block numbers)
     pub drought_toggle_pct: u64,
+    /// number of the first block (None = drawn: 0 or 1 with consecutive numbers, 0..20 with gaps)
+    pub first_number: Option<u64>,
 }
 
 #[derive(Clone)]
@@ -57,13 +66,15 @@ pub struct Node {
     tx_counter: u64,
     salt: u64,
     drought: bool,
+    /// block number per height (position on a chain), shared by all forks
+    height_numbers: Vec<u64>,
     /// number of changes of the canonical chain (diagnostic)
     pub version: u64,
 }
 
 impl Node {
     pub fn new(profile: ChainProfile) -> Node {
-        Node { blocks: vec![], chain: vec![], pos: vec![], profile, orphan_txs: vec![], tx_counter: 0, salt: 0, drought: false, version: 0 }
+        Node { blocks: vec![], chain: vec![], pos: vec![], profile, orphan_txs: vec![], tx_counter: 0, salt: 0, drought: false, height_numbers: vec![], version: 0 }
     }
 
     /// a node with the same fork tree whose canonical chain is `chain` (used to serve a frozen
@@ -137,32 +148,38 @@ impl Node {
     pub fn forward(&mut self, n: usize, rng: &mut ChaCha20Rng) {
         for _ in 0..n {
             let parent = self.chain.last().copied();
-            let (pnum, pslot, phash) = match parent {
-                Some(p) => (Some(self.blocks[p].number), self.blocks[p].slot, self.blocks[p].hash),
-                None => (None, 0, [0u8; 32]),
+            let (pslot, phash) = match parent {
+                Some(p) => (self.blocks[p].slot, self.blocks[p].hash),
+                None => (0, [0u8; 32]),
             };
-            let number = match pnum {
-                None => {
-                    if self.profile.sparse_numbers {
-                        rnd::below(rng, 21)
-                    } else {
-                        rnd::below(rng, 2)
-                    }
-                }
-                Some(p) => {
-                    let gap = if !self.profile.sparse_numbers {
-                        0
-                    } else {
-                        match rnd::below(rng, 100) {
-                            0..=74 => 0,
-                            75..=92 => 1 + rnd::below(rng, 3),
-                            93..=96 => 4 + rnd::below(rng, 12),
-                            _ => 16 + rnd::below(rng, 30),
+            let height = self.chain.len();
+            while self.height_numbers.len() <= height {
+                let n = match self.height_numbers.last() {
+                    None if self.profile.first_number.is_some() => self.profile.first_number.unwrap(),
+                    None => {
+                        if self.profile.sparse_numbers {
+                            rnd::below(rng, 21)
+                        } else {
+                            rnd::below(rng, 2)
                         }
-                    };
-                    p + 1 + gap
-                }
-            };
+                    }
+                    Some(p) => {
+                        let gap = if !self.profile.sparse_numbers {
+                            0
+                        } else {
+                            match rnd::below(rng, 100) {
+                                0..=74 => 0,
+                                75..=92 => 1 + rnd::below(rng, 3),
+                                93..=96 => 4 + rnd::below(rng, 12),
+                                _ => 16 + rnd::below(rng, 30),
+                            }
+                        };
+                        p + 1 + gap
+                    }
+                };
+                self.height_numbers.push(n);
+            }
+            let number = self.height_numbers[height];
             let slot = pslot + 1 + if rnd::chance(rng, 1, 12) { 20 + rnd::below(rng, 400) } else { rnd::below(rng, 20) };
             if rnd::below(rng, 100) < self.profile.drought_toggle_pct {
                 self.drought = !self.drought;
@@ -209,10 +226,5 @@ impl Node {
             self.version += 1;
         }
         removed.len()
-    }
-
-    /// canonical blocks with number <= n
-    pub fn canonical_up_to(&self, n: u64) -> Vec<&Blk> {
-        self.chain.iter().map(|id| &self.blocks[*id]).take_while(|b| b.number <= n).collect()
     }
 }
